@@ -395,7 +395,11 @@ pub fn run(opts: &Opts) -> i32 {
     }
     // (c) `that` locality
     let pre = pipeline::prelude();
-    let that_probes: [(&str, String, &str); 7] = [
+    let that_probes: [(&str, String, &str); 11] = [
+        ("that-nested-in-the-bindee-of-a-that", format!("{pre}let code = (3 : Int64) in\nbegin\n  def ! finish : OS = let code : Int64 = 7 that ! (process/exit) code that\n  ! finish\nend\n"), "exit:7"),
+        ("that-nested-in-the-bindee-of-a-that-no-outer", format!("{pre}begin\n  def ! finish : OS = let zcode : Int64 = 7 that ! (process/exit) zcode that\n  ! finish\nend\n"), "exit:7"),
+        ("same-name-twice-in-one-pattern-in", format!("{pre}let (zq, zq) = ((1 : Int64), (2 : Int64)) in\n! (process/exit) zq\n"), "exit:2"),
+        ("same-name-twice-in-one-pattern-that", format!("{pre}begin\n  let (zq, zq) = ((1 : Int64), (2 : Int64)) that\n  ! (process/exit) zq\nend\n"), "exit:2"),
         ("that-visible-before-definition", format!("{pre}begin\n  let zuser : Thk OS = {{ ! (process/exit) zq }} that\n  let zq = (7 : Int64) that\n  ! zuser\nend\n"), "exit:7"),
         ("that-shadows-outer", format!("{pre}let zq = (1 : Int64) in\nbegin\n  let zuser : Thk OS = {{ ! (process/exit) zq }} that\n  let zq = (7 : Int64) that\n  ! zuser\nend\n"), "exit:7"),
         ("that-shadows-outer-in-the-tail", format!("{pre}let zq = (1 : Int64) in\nbegin\n  let zq = (7 : Int64) that\n  ! (process/exit) zq\nend\n"), "exit:7"),
